@@ -1012,11 +1012,11 @@ def r7_pageable_entities_get_pages(ctx, rep):
 
 RULES = [
     RuleSpec("C09.R7", r7_pageable_entities_get_pages, "entities that have a page URL get a page", floor=12),
-    RuleSpec("C09.R8", r8_anchor_targets_exist, "anchors of linkable members are emitted unconditionally", floor=30),
-    RuleSpec("C09.R1", r1_list_pages, "list-page / singular-link guard implies page creation", floor=12),
+    RuleSpec("C09.R8", r8_anchor_targets_exist, "anchors of linkable members are emitted unconditionally", floor=16),
+    RuleSpec("C09.R1", r1_list_pages, "list-page / singular-link guard implies page creation", floor=7),
     RuleSpec("C09.R2", r2_anchors, "sidebar anchor use implies anchor definition", floor=30),
     RuleSpec("C09.R3", r3_relurl, "link-bearing values pass relurl", floor=25),
-    RuleSpec("C09.R4", r4_depth, "literal ../ only on depth-1 pages", floor=3),
+    RuleSpec("C09.R4", r4_depth, "literal ../ only on depth-1 pages", floor=2),
     RuleSpec("C09.R5", r5_dirs, "directories and page names agree", floor=15),
-    RuleSpec("C09.R6", r6_graph_urls, "links only to visible entities", floor=3),
+    RuleSpec("C09.R6", r6_graph_urls, "links only to visible entities", floor=1),
 ]
